@@ -43,11 +43,6 @@ def menu(base):
     return out
 
 
-def compatible(devs):
-    """drop combinations that pandapower refuses by design or that are not power-flow problems"""
-    return True
-
-
 def zip_cases(base):
     """nets with voltage dependent loads: alone, next to a constant-power load / sgen, two different ZIP loads"""
     b0 = na.HOT[base][0]
